@@ -12,6 +12,7 @@ mod units;
 mod load;
 mod app;
 mod batch;
+mod robust;
 
 fn main() {
     let args: Vec<String> = std::env::args().collect();
@@ -29,6 +30,8 @@ fn main() {
         "units" => units::main(rest),
         "load" => load::main(rest),
         "batch" => batch::main(rest),
+        "robust" => robust::main(rest),
+        "robust-child" => robust::child(&rest[0]),
         other => {
             eprintln!("unknown subcommand {}", other);
             2
